@@ -1,7 +1,7 @@
 SPECIFICATION Spec
 CONSTANTS
   TypeNames = {"ta", "tb"}
-  Vers <- VersQuick
+  Vers <- VersTiny
   MaxOps = 3
   EmitAll = FALSE
 INVARIANTS TypeOK TableIsHighest RepliesFromTable
